@@ -210,7 +210,7 @@ def classify(bad, rid):
 
 
 def gen_opts():
-    return gen.GenOpts(big_sizes=False, max_decls=5, avoid=common.avoid_set(ID))
+    return gen.GenOpts(big_sizes=False, max_decls=5, avoid=common.avoid_set(ID), block_focus=4)
 
 
 def worker(widx, seed, tier, stats):
